@@ -7,6 +7,9 @@ use super::src_kani::Src;
 use super::src_kani::KaniSrc;
 use super::target::SmallBytes;
 
+#[cfg(verif_deep)]
+pub const N: usize = 32;
+#[cfg(not(verif_deep))]
 pub const N: usize = 24;
 
 fn sym_bytes<S: Src>(s: &mut S, buf: &mut [u8; N]) -> usize {
@@ -80,15 +83,15 @@ pub fn dispatch<S: Src>(name: &str, s: &mut S) -> bool {
 mod proofs {
     use super::*;
     #[kani::proof]
-    #[kani::unwind(26)]
+    #[kani::unwind(34)]
     fn from_slice_reads_back() { super::from_slice_reads_back(&mut KaniSrc) }
     #[kani::proof]
-    #[kani::unwind(26)]
+    #[kani::unwind(34)]
     fn from_vec_reads_back() { super::from_vec_reads_back(&mut KaniSrc) }
     #[kani::proof]
-    #[kani::unwind(26)]
+    #[kani::unwind(34)]
     fn eq_iff_same_bytes() { super::eq_iff_same_bytes(&mut KaniSrc) }
     #[kani::proof]
-    #[kani::unwind(26)]
+    #[kani::unwind(34)]
     fn canary_small_bytes() { super::canary_small_bytes(&mut KaniSrc) }
 }
